@@ -1,9 +1,60 @@
 (* C02 — the tie to the source: the kind a payload declares is read exactly as identifier.Kind (v2/decoder.go,
    translated on this run into Gen/SrcHeader.v) reads it.  Only statements. *)
-From JWT Require Import Base.GoSem Gen.SrcHeader Model.Decode Proofs.SrcHeader.
+From JWT Require Import Base.GoSem Gen.SrcHeader Gen.SrcDecode Model.Decode Proofs.SrcHeader Proofs.SrcDecode.
 Open Scope string_scope.
 
 Theorem C02_source_identifier_kind : forall i : ident,
   V2.identifier_Kind (id_nats_type i) (id_top_type i) = id_kind i.
 Proof. exact src_id_kind. Qed.
 Print Assumptions C02_source_identifier_kind.
+
+(* the six typed decoders as translated on this run: each accepts exactly what the model's [decode_typed] accepts for
+   its kind and returns claims of that kind (the role matrix of C02 is proved of [decode] / [decode_typed]) *)
+Theorem C02_source_decode_Operator : forall b64dec parse_header parse_ident unmarshal_ok issuer_of verify role_of (tok : string),
+  match decode_typed b64dec parse_header parse_ident unmarshal_ok issuer_of verify role_of KOperator tok with
+  | Some a => exists d, src_decode_Operator b64dec parse_header parse_ident unmarshal_ok issuer_of verify role_of tok = (GClaims KOperator d, None)
+                        /\ issuer_of d = a_iss a
+  | None => snd (src_decode_Operator b64dec parse_header parse_ident unmarshal_ok issuer_of verify role_of tok) <> None
+  end.
+Proof. exact src_decode_Operator_spec. Qed.
+Print Assumptions C02_source_decode_Operator.
+Theorem C02_source_decode_Account : forall b64dec parse_header parse_ident unmarshal_ok issuer_of verify role_of (tok : string),
+  match decode_typed b64dec parse_header parse_ident unmarshal_ok issuer_of verify role_of KAccount tok with
+  | Some a => exists d, src_decode_Account b64dec parse_header parse_ident unmarshal_ok issuer_of verify role_of tok = (GClaims KAccount d, None)
+                        /\ issuer_of d = a_iss a
+  | None => snd (src_decode_Account b64dec parse_header parse_ident unmarshal_ok issuer_of verify role_of tok) <> None
+  end.
+Proof. exact src_decode_Account_spec. Qed.
+Print Assumptions C02_source_decode_Account.
+Theorem C02_source_decode_User : forall b64dec parse_header parse_ident unmarshal_ok issuer_of verify role_of (tok : string),
+  match decode_typed b64dec parse_header parse_ident unmarshal_ok issuer_of verify role_of KUser tok with
+  | Some a => exists d, src_decode_User b64dec parse_header parse_ident unmarshal_ok issuer_of verify role_of tok = (GClaims KUser d, None)
+                        /\ issuer_of d = a_iss a
+  | None => snd (src_decode_User b64dec parse_header parse_ident unmarshal_ok issuer_of verify role_of tok) <> None
+  end.
+Proof. exact src_decode_User_spec. Qed.
+Print Assumptions C02_source_decode_User.
+Theorem C02_source_decode_Activation : forall b64dec parse_header parse_ident unmarshal_ok issuer_of verify role_of (tok : string),
+  match decode_typed b64dec parse_header parse_ident unmarshal_ok issuer_of verify role_of KActivation tok with
+  | Some a => exists d, src_decode_Activation b64dec parse_header parse_ident unmarshal_ok issuer_of verify role_of tok = (GClaims KActivation d, None)
+                        /\ issuer_of d = a_iss a
+  | None => snd (src_decode_Activation b64dec parse_header parse_ident unmarshal_ok issuer_of verify role_of tok) <> None
+  end.
+Proof. exact src_decode_Activation_spec. Qed.
+Print Assumptions C02_source_decode_Activation.
+Theorem C02_source_decode_AuthorizationRequest : forall b64dec parse_header parse_ident unmarshal_ok issuer_of verify role_of (tok : string),
+  match decode_typed b64dec parse_header parse_ident unmarshal_ok issuer_of verify role_of KAuthRequest tok with
+  | Some a => exists d, src_decode_AuthorizationRequest b64dec parse_header parse_ident unmarshal_ok issuer_of verify role_of tok = (GClaims KAuthRequest d, None)
+                        /\ issuer_of d = a_iss a
+  | None => snd (src_decode_AuthorizationRequest b64dec parse_header parse_ident unmarshal_ok issuer_of verify role_of tok) <> None
+  end.
+Proof. exact src_decode_AuthorizationRequest_spec. Qed.
+Print Assumptions C02_source_decode_AuthorizationRequest.
+Theorem C02_source_decode_AuthorizationResponse : forall b64dec parse_header parse_ident unmarshal_ok issuer_of verify role_of (tok : string),
+  match decode_typed b64dec parse_header parse_ident unmarshal_ok issuer_of verify role_of KAuthResponse tok with
+  | Some a => exists d, src_decode_AuthorizationResponse b64dec parse_header parse_ident unmarshal_ok issuer_of verify role_of tok = (GClaims KAuthResponse d, None)
+                        /\ issuer_of d = a_iss a
+  | None => snd (src_decode_AuthorizationResponse b64dec parse_header parse_ident unmarshal_ok issuer_of verify role_of tok) <> None
+  end.
+Proof. exact src_decode_AuthorizationResponse_spec. Qed.
+Print Assumptions C02_source_decode_AuthorizationResponse.
